@@ -17,6 +17,7 @@ WindowCtl g_win;
 static volatile uint64_t g_current_run = 0;
 volatile int g_watchdog_fired = 0;
 volatile uint8_t g_scrub_byte = 0;
+volatile uint32_t g_stack_skew = 0;
 __attribute__((noinline)) void scrub_stack(uint8_t byte) {
     volatile uint8_t buf[48 * 1024];
     memset((void *)buf, byte, sizeof buf);
